@@ -50,11 +50,13 @@ func (dv *defaultVerifierSimple) verifyRoot(root *Node) ([]string, []string, err
 
 	dirsFilesystem := map[string]struct{}{}
 	extraDirs := []string{}
+	// walk from the target directory, so that a root that is a regular file (a childless
+	// root created with a file extension) is handled like any other entry
 	if err := fs.WalkDir(
-		os.DirFS(filepath.Join(dv.targetDir, root.path())),
-		".",
+		os.DirFS(dv.targetDir),
+		root.path(),
 		func(path string, d fs.DirEntry, err error) error {
-			dir := filepath.Join(dv.targetDir, root.path(), path)
+			dir := filepath.Join(dv.targetDir, path)
 
 			if err != nil {
 				if errors.Is(err, fs.ErrNotExist) {
